@@ -33,9 +33,9 @@ typedef unsigned __int128 u128;
 static int FULL;
 
 /* ---------------------------------------------------------------- alphabets */
-static uint64_t V[256]; static int NV;         /* rates / maxima, 1..EV_RATE_LIMIT_MAX */
-static uint32_t T[160]; static int NT;         /* tick differences */
-static uint32_t L[8]; static int NL;           /* last_updated values */
+static uint64_t V[1024]; static int NV;         /* rates / maxima, 1..EV_RATE_LIMIT_MAX */
+static uint32_t T[512]; static int NT;         /* tick differences */
+static uint32_t L[16]; static int NL;           /* last_updated values */
 
 static int cmp_u64(const void *a, const void *b) { uint64_t x = *(const uint64_t *)a, y = *(const uint64_t *)b; return x < y ? -1 : x > y; }
 static int cmp_u32(const void *a, const void *b) { uint32_t x = *(const uint32_t *)a, y = *(const uint32_t *)b; return x < y ? -1 : x > y; }
@@ -47,19 +47,27 @@ static int uniq_i64(int64_t *a, int n) { int m = 0; qsort(a, n, sizeof *a, cmp_i
 
 static void addV(u128 v) { if (v >= 1 && v <= (u128)SMAX) V[NV++] = (uint64_t)v; }
 
+static void build_V(int full)
+{
+	NV = 0;
+	for (int k = 0; k <= 63; k++) { u128 p = (u128)1 << k; int r = full >= 2 ? 3 : 1; for (int d = -r; d <= r; d++) addV((u128)((i128)p + d));
+		if (full >= 2) { addV(p * 3); addV(p * 5); addV(p * 3 / 2 + 1); } }
+	addV(3); addV(5); addV(7); addV(10); addV(100); addV(1000); addV(16384); addV(1000000007ULL);
+	addV((u128)SMAX - 1); addV((u128)SMAX); addV((u128)SMAX / 3); addV((u128)SMAX / 2 + 1);
+	if (full >= 2) { u128 p = 1; for (int j = 1; j <= 18; j++) { p *= 10; addV(p - 1); addV(p); addV(p + 1); }
+		addV((u128)SMAX - 2); addV((u128)SMAX - 3); addV((u128)SMAX / 10); addV((u128)SMAX / 3 * 2); addV(1500); addV(65535 * 3); addV(16384 * 3); }
+	NV = uniq_u64(V, NV);
+}
 static void build_sets(void)
 {
 	static int done; if (done) return; done = 1;
-	FULL = mc_param("full", 0);
-	NV = 0;
-	for (int k = 0; k <= 63; k++) { u128 p = (u128)1 << k; addV(p - 1); addV(p); addV(p + 1); }
-	addV(3); addV(5); addV(7); addV(10); addV(100); addV(1000); addV(16384); addV(1000000007ULL);
-	addV((u128)SMAX - 1); addV((u128)SMAX); addV((u128)SMAX / 3); addV((u128)SMAX / 2 + 1);
-	NV = uniq_u64(V, NV);
+	build_V(FULL);
 	NT = 0;
 	if (FULL) {
-		for (int k = 0; k <= 32; k++) { uint64_t p = 1ULL << k; T[NT++] = (uint32_t)(p - 1); T[NT++] = (uint32_t)p; T[NT++] = (uint32_t)(p + 1); }
+		int r = FULL >= 2 ? 2 : 1;
+		for (int k = 0; k <= 32; k++) { uint64_t p = 1ULL << k; for (int d = -r; d <= r; d++) T[NT++] = (uint32_t)(p + d); if (FULL >= 2 && k < 31) { T[NT++] = (uint32_t)(p * 3); T[NT++] = (uint32_t)(p * 3 - 1); } }
 		T[NT++] = 3; T[NT++] = 7; T[NT++] = 10; T[NT++] = 1000; T[NT++] = 86400; T[NT++] = 0x7ffffffeu; T[NT++] = 0xfffffffeu; T[NT++] = 0xc0000000u;
+		if (FULL >= 2) { uint32_t p = 1; for (int j = 1; j <= 9; j++) { p *= 10; T[NT++] = p - 1; T[NT++] = p; T[NT++] = p + 1; } T[NT++] = 60; T[NT++] = 3600; T[NT++] = 604800; T[NT++] = 0x7ffffffdu; T[NT++] = 0x80000002u; }
 	} else {
 		static const uint32_t t[] = { 0, 1, 2, 3, 4, 7, 255, 256, 65535, 65536, 65537, 0x00ffffffu, 0x3fffffffu, 0x40000000u,
 		    0x7ffffffeu, 0x7fffffffu, 0x80000000u, 0x80000001u, 0xc0000000u, 0xfffffffeu, 0xffffffffu };
@@ -69,6 +77,7 @@ static void build_sets(void)
 	NL = 0;
 	L[NL++] = 0; L[NL++] = 0xffffffffu; L[NL++] = 0x80000000u;
 	if (FULL) { L[NL++] = 1; L[NL++] = 0x7fffffffu; L[NL++] = 123456789u; }
+	if (FULL >= 2) { L[NL++] = 0xfffffffeu; L[NL++] = 0x80000001u; L[NL++] = 0x7ffffffeu; L[NL++] = 0xc0000000u; }
 }
 
 /* level alphabet for one side, depends on (rate, max, n) so that the exact
@@ -176,7 +185,7 @@ static void item_update(uint64_t idx)
 
 /* ---------------------------------------------------------------- tick lengths */
 struct tl { int null; long sec, usec; };
-static const struct tl TL[] = {
+static struct tl TL[640] = {
 	{1,0,0}, {0,0,0}, {0,0,1}, {0,0,999}, {0,0,1000}, {0,0,1001}, {0,0,1999}, {0,0,2000}, {0,0,3000}, {0,0,7000}, {0,0,10000},
 	{0,0,999000}, {0,0,999999}, {0,1,0}, {0,1,999}, {0,1,1000}, {0,1,999999}, {0,2,500000}, {0,60,0}, {0,3600,0}, {0,86400,0},
 	{0,2147482,999999}, {0,2147483,0}, {0,2147483,647000}, {0,2147483,648000}, {0,2147483,999999}, {0,2147484,0},
@@ -184,7 +193,19 @@ static const struct tl TL[] = {
 	{0,-1,0}, {0,-1,999999}, {0,-1,1000000}, {0,-2147484,0}, {0,LONG_MIN,0},
 	{0,0,MAGIC}, {0,0,MAGIC | 999}, {0,0,MAGIC | 1000}, {0,0,MAGIC | 999999}, {0,1,MAGIC}, {0,1,MAGIC | 250000}, {0,-1,MAGIC | 5000}, {0,0,MAGIC | 0x00100000 | 1000},
 };
-#define N_TL ((int)(sizeof TL / sizeof TL[0]))
+static int N_TL = 47;
+/* -P full=2: the cross product of second and microsecond forms, incl. microsecond values whose only set bits lie above the 20-bit field */
+static void build_TL(int full)
+{
+	static const long SECS[] = { 0, 1, 2, 59, 60, 999, 1000, 2147, 2147482, 2147483, 2147484, -1 };
+	static const long USECS[] = { 0, 1, 500, 998, 999, 1000, 1001, 1500, 1999, 2000, 2001, 10000, 500000, 999000, 999999, MAGIC, MAGIC | 1, MAGIC | 999, MAGIC | 1000, MAGIC | 999999,
+	    0x00100000, 0x00100000 | 999, 0x00100000 | 1000, 0x7ff00000, 0x7ff00000 | 2000 };
+	if (full < 2) return;
+	for (unsigned a = 0; a < sizeof SECS / sizeof SECS[0]; a++) for (unsigned b = 0; b < sizeof USECS / sizeof USECS[0]; b++) {
+		int dup = 0; for (int i = 0; i < N_TL; i++) dup |= !TL[i].null && TL[i].sec == SECS[a] && TL[i].usec == USECS[b];
+		if (!dup) { TL[N_TL].null = 0; TL[N_TL].sec = SECS[a]; TL[N_TL].usec = USECS[b]; N_TL++; }
+	}
+}
 
 /* reference: is the tick length acceptable, and how many ms is it (fractions of a ms ignored,
  * the bits above the 20-bit microsecond field of a "common timeout" timeval are not part of the length) */
@@ -308,11 +329,9 @@ static void item(uint64_t i)
 
 int main(int argc, char **argv)
 {
-	/* the sizes do not depend on -P (only T and L do), so n_items can be fixed before mc_main parses argv */
-	{ int nv = 0; NV = 0; for (int k = 0; k <= 63; k++) { u128 p = (u128)1 << k; addV(p - 1); addV(p); addV(p + 1); }
-	  addV(3); addV(5); addV(7); addV(10); addV(100); addV(1000); addV(16384); addV(1000000007ULL);
-	  addV((u128)SMAX - 1); addV((u128)SMAX); addV((u128)SMAX / 3); addV((u128)SMAX / 2 + 1);
-	  nv = uniq_u64(V, NV); NV = nv; }
+	/* the alphabets (and with them n_items) depend on -P full=, which is needed before mc_main parses argv */
+	for (int i = 1; i + 1 < argc; i++) if (!strcmp(argv[i], "-P") && !strncmp(argv[i + 1], "full=", 5)) FULL = atoi(argv[i + 1] + 5);
+	build_V(FULL); build_TL(FULL);
 	build_B();
 	NA = (uint64_t)NV * NV; NBt = N_TL; NC = (uint64_t)NB * NB;
 	struct mc_config cfg = { .property = "C21", .n_items = NA + NBt + NC, .item = item };
